@@ -1,6 +1,7 @@
 package props
 
 import (
+	"sync/atomic"
 	"context"
 	"encoding/json"
 	"fmt"
@@ -77,6 +78,16 @@ func c20Cases(tier string, seed uint64) []fw.Case {
 		c := c20Case{Kind: "fallback", G: fb, Rounds: rounds / 4}
 		c.Name = fmt.Sprintf("fallback/%dx%d/%d", fb, rounds/4, sh)
 		cs = append(cs, fw.MkCase("fallback", &c))
+	}
+	// snapshots taken from a generator that is being drawn from at full speed (small sequence pools, so that it
+	// spends most of each time unit waiting out a sequence overflow), restored and drawn from at once
+	for _, pool := range []int{15, 255} {
+		c := c20Case{Kind: "snapshot-live", G: pool, Rounds: 60}
+		if tier == "thorough" {
+			c.Rounds = 600
+		}
+		c.Name = fmt.Sprintf("snapshot-live/pool%d", pool)
+		cs = append(cs, fw.MkCase("snapshot-live", &c))
 	}
 	// one fallback generator drawn concurrently
 	for _, g := range []int{2, 4, 16, 32} {
@@ -186,6 +197,72 @@ func c20Run(c *c20Case, env *fw.Env, v *fw.V) {
 			v.Violate("duplicate-id", "several-generators", "%d duplicate ids among %d drawn from %d generators alive at once (first: %x)", n, len(all), c.G, d)
 		}
 		v.Add("ids", len(all))
+	case "snapshot-live":
+		tr := tracing.NewTracer(ctx)
+		cfg := []byte(fmt.Sprintf(`{"partition":[201,7],"sequenceMin":0,"sequenceMax":%d}`, c.G))
+		first, err := id.GetSno().RestoreIdGenerator(ctx, cfg, tr)
+		if err != nil {
+			v.Violate("generator-error", "sno", "%v", err)
+			return
+		}
+		snapper, ok := first.(interface{ Snapshot() ([]byte, error) })
+		if !ok {
+			v.Inconclusive("api", "generator has no Snapshot")
+			return
+		}
+		const capacity = 1 << 18
+		drawn := make([]string, capacity)
+		var published atomic.Int64
+		var stop atomic.Bool
+		done := make(chan struct{})
+		go func() {
+			defer close(done)
+			for i := 0; i < capacity && !stop.Load(); i++ {
+				drawn[i] = string(first.New().Bytes())
+				published.Store(int64(i + 1))
+			}
+		}()
+		restores := 0
+		for r := 0; r < c.Rounds && int(published.Load()) < capacity-1; r++ {
+			before := int(published.Load()) // everything in drawn[:before] was returned before the snapshot
+			snap, err := snapper.Snapshot()
+			if err != nil {
+				v.Violate("snapshot-error", "sno", "%v", err)
+				break
+			}
+			rctx, rcancel := context.WithCancel(ctx)
+			rg, err := id.GetSno().RestoreIdGenerator(rctx, snap, tr)
+			if err != nil {
+				rcancel()
+				v.Violate("restore-error", "sno", "%v", err)
+				break
+			}
+			var fresh []string
+			for k := 0; k < 8; k++ {
+				fresh = append(fresh, string(rg.New().Bytes()))
+			}
+			rcancel()
+			restores++
+			seen := map[string]bool{}
+			for _, s := range drawn[:before] {
+				seen[s] = true
+			}
+			dup := ""
+			for _, s := range fresh {
+				if seen[s] {
+					dup = s
+				}
+			}
+			v.Add("ids", before+len(fresh))
+			if dup != "" {
+				v.Violate("duplicate-id", "snapshot-restore-live", "a generator restored from a snapshot taken while the original was being drawn from (pool of %d ids per time unit, %d ids issued before the snapshot) re-issued id %x", c.G+1, before, dup)
+				break
+			}
+			time.Sleep(time.Duration(200+r%7*300) * time.Microsecond)
+		}
+		stop.Store(true)
+		<-done
+		v.Add("restores", restores)
 	case "snapshot":
 		for _, p := range c.Points {
 			g, tr, err := c20NewGen(ctx)
@@ -356,7 +433,7 @@ func init() {
 			v.Nontrivial = v.Stats["ids"] > 1
 			return v
 		},
-		Rule:        "exact duplicate detection over all ids drawn: one sno generator x {1,2,4,8,16,32} goroutines x 1e6 (quick) / 5e6 (thorough) draws, twice each (a run spans many 4 ms time units of the id pool); 1..8 generators alive at once; snapshot/restore at PRNG points of the draw history (0 draws = immediately, a few, thousands, beyond the 65535-per-time-unit pool) with the restored generator's output merged with the output before the snapshot; 16/64 fallback generators created behind a barrier x rounds; one fallback generator x {2,4,16,32} goroutines x 2e5 / 1e6 draws; flow and instance ids observed in the traces of 60 instances run 12 at a time in one program (on the default and on fallback generators); a case is non-trivial when it compared > 1 id; distinct = descriptor hash; 'measured.ids' = ids compared",
+		Rule:        "exact duplicate detection over all ids drawn: one sno generator x {1,2,4,8,16,32} goroutines x 1e6 (quick) / 5e6 (thorough) draws, twice each (a run spans many 4 ms time units of the id pool); 1..8 generators alive at once; snapshot/restore at PRNG points of the draw history (0 draws = immediately, a few, thousands, beyond the 65535-per-time-unit pool) with the restored generator's output merged with the output before the snapshot; snapshots taken while another goroutine draws at full speed from a generator with a small sequence pool (16 / 256 ids per time unit: mostly waiting out overflows), restored and drawn from at once, compared with everything issued before the snapshot; 16/64 fallback generators created behind a barrier x rounds; one fallback generator x {2,4,16,32} goroutines x 2e5 / 1e6 draws; flow and instance ids observed in the traces of 60 instances run 12 at a time in one program (on the default and on fallback generators); a case is non-trivial when it compared > 1 id; distinct = descriptor hash; 'measured.ids' = ids compared",
 		Assumptions: []string{"wall-clock regressions (sno's drift branch) cannot be injected and are not claimed"},
 		Batch:       2,
 		MaxShards:   6,
